@@ -11,7 +11,7 @@ import calfile_lib as L
 DEFAULTS = (6, 7)
 VFILES = ["CalFile/NumTextProofs.v", "CalFile/CalFileProofs.v", "CalFile/CalSaveProofs.v", "CalFile/CalSaveExamples.v",
           "CalFile/SaveBufFacts.v", "CalFile/LegacyProofs.v", "CalFile/LegacyExamples.v", "CalFile/LegacyApplyProofs.v",
-          "CalFile/LegacyApplyExamples.v", "Properties_C07.v"]
+          "CalFile/LegacyApplyExamples.v", "CalFile/LegacyFreqCollision.v", "CalFile/LegacyFreqCollisionEx.v", "CalFile/LegacyTerms.v", "Properties_C07.v"]
 
 
 def py_accepts(setter, p):
@@ -111,6 +111,8 @@ def run(ctx):
         "(checks/c07_savetie.py, checks/c09_model.py); extraction and ocaml/drv_calfile.ml",
         "translator translate/savebuf.py (C text -> coq/Gen/SaveBufGen.v), validated against the compiled code (sizeof, VNACAL_MAX_PRECISION, defaults, setter probes)",
         "CalFile/NumText.v: shapes of C99 %e/%a/%d output (glibc's conformance is exercised by the length tie, not proved)",
+        "the \"C\" numeric locale (int_rt, real_rt, cx_rt: libvna never calls setlocale; a decimal-comma locale set by the program changes what printf writes and strtod reads)",
+        "rd_readable (cal_roundtrip_or_collision): a non-negative finite or +inf double printed with p digits reads back non-negative or +inf",
     ]
     ctx.assumptions += ["the longest %.*e text of a finite double has a sign, one digit, a point, p-1 digits, 'e', a sign and three exponent digits",
                         "int is 32 bits, double is binary64 (checked against the compiled harness)"]
